@@ -31,3 +31,5 @@ def check(run):
     from checks.main import reflection_bounded
     reflection_bounded(run)
     run.verify_functions(TARGETS + RECOGNIZER)
+    from checks.main import nodecross_bounded
+    nodecross_bounded(run)
